@@ -57,6 +57,7 @@ def decide(chk, cases):
     svals = gv.coq_eval(chk.prop + TAG + "_shape", REQ_RUN, [cases[i]["shape"] for i in si], shard=shape_shard(len(si)))
     for i, v in zip(si, svals):
         cases[i].setdefault("tags", []).append("plan:theorem-shape" if v == "true" else "plan:other-shape")
+        cases[i]["shape_ok"] = (v == "true")
     open_ids = chk.open_finding_ids()
     ki = [i for i in fails if cases[i].get("kall")]
     kvals = gv.coq_eval(chk.prop + TAG + "_kall", REQ_RUN, [cases[i]["kall"] for i in ki], shard=shape_shard(len(ki)))
@@ -66,6 +67,12 @@ def decide(chk, cases):
         hit = [k for k, b in zip(ids, bs) if b == "true"]
         cases[i]["kclasses"] = sorted(set(hit))
         pick = [(j, k) for j, (k, b) in enumerate(zip(ids, bs)) if b == "true" and k in open_ids]
+        # a GQL / Cypher plan that is NOT the shape the translators are known to build (gql_plan_of /
+        # cypher_plan_of, defects K5-K7, K9, K12 included) means the translator itself deviated: then no
+        # class may excuse the wrong answer, except K1 (GQL drops the star of an unbounded pattern, which
+        # the shape deliberately does not mirror)
+        if cases[i].get("shape_ok") is False:
+            pick = [(j, k) for j, k in pick if k == "C08-K1"]
         if pick:
             idx, k = pick[0]
             cases[i]["kid"] = k
